@@ -65,8 +65,15 @@ Fixpoint chain (prev_ev : Z) (row : list cell) : list cell :=
   | [] => []
   | c :: r => mkCell KInc (ps c) (pe c) (ev c) (Some prev_ev) (cmeta c) (cvals c) :: chain (ev c) r
   end.
-Definition finish_row (inc : bool) (e : cell) (row : list cell) : list cell :=
-  if inc then chain (ev e) row else row.
+(* incremental input goes through to_cumulative, which rebuilds every cell of a (period, slice) group
+   with the group KEY's metadata: the metadata object of the group's first cell (Python-equal to the
+   others, possibly spelled differently: 7 vs 7.0, dict order) *)
+Definition set_meta (m : meta) (c : cell) : cell :=
+  mkCell (ckind c) (ps c) (pe c) (ev c) (prev c) m (cvals c).
+Definition row_head (s : list cell) (e : cell) : cell :=
+  match filter (in_period (period e)) s with c :: _ => c | [] => e end.
+Definition finish_row (inc : bool) (hd_ e : cell) (row : list cell) : list cell :=
+  if inc then chain (ev e) (map (set_meta (cmeta hd_)) row) else row.
 
 (* ------------------------------------------------------------------ make_right_triangle *)
 (* decision token: `if dev_lag > cell.dev_lag(unit)` *)
@@ -77,7 +84,7 @@ Definition rt_row := rt_row_with lag_above.
 Definition slice_lags (u : unit_) (lags : option (list Z)) (s : list cell) : list Z :=
   match lags with None => dev_lags u s | Some l => isort l end.
 Definition rt_slice (inc : bool) (u : unit_) (lags : option (list Z)) (s : list cell) : list cell :=
-  flat_map (fun e => finish_row inc e (rt_row u (slice_lags u lags s) e)) (edges s).
+  flat_map (fun e => finish_row inc (row_head s e) e (rt_row u (slice_lags u lags s) e)) (edges s).
 Definition make_right_triangle (u : unit_) (lags : option (list Z)) (t : list cell) : result (list cell) :=
   let inc := is_incremental t in
   if inc && negb (to_cum_ok t) then Err TriangleError
@@ -91,7 +98,7 @@ Definition rd_row (dates : list Z) (e : cell) : list cell :=
 Definition rd_dates (dates : list Z) (hist : bool) (s : list cell) : list Z :=
   isort (if hist then dates else filter (fun d => max_ev s <? d) dates).   (* eval_date > max_eval *)
 Definition rd_slice (inc : bool) (dates : list Z) (hist : bool) (s : list cell) : list cell :=
-  flat_map (fun e => finish_row inc e (rd_row (rd_dates dates hist s) e)) (edges s).
+  flat_map (fun e => finish_row inc (row_head s e) e (rd_row (rd_dates dates hist s) e)) (edges s).
 (* replace(prev_evaluation_date=edge.ev) re-validates: evaluation_date > prev_evaluation_date *)
 Definition rd_relink_ok (dates : list Z) (hist : bool) (s : list cell) : bool :=
   forallb (fun e => match rd_row (rd_dates dates hist s) e with
@@ -262,7 +269,8 @@ Definition right_new_cells_b (t out : list cell) : bool :=
     negb (occupied t c)
     && match row_of_cell t c with
        | [] => false
-       | d :: _ as row => (latest_ev row <? ev c) && meta_seqb (cmeta c) (cmeta (fold_left later row d))
+       | d :: _ as row => (latest_ev row <? ev c)
+                          && meta_seqb (cmeta c) (cmeta (if is_incremental t then d else fold_left later row d))
        end
     && empty_vals c && Bool.eqb (is_inc c) (is_incremental t)) out.
 (* the lags supplied for each edge cell are exactly the wanted lags above the edge lag *)
